@@ -624,6 +624,11 @@ class FormulaManager(object):
 
         if isinstance(value, str):
             if value.startswith("#b"):
+                if not all(v in ["0", "1"] for v in value[2:]):
+                    # int(s, 2) also accepts signs, underscores, blanks
+                    # and a "0b" prefix
+                    raise PysmtValueError("Expecting binary value as string, " \
+                                          "got %s instead." % value)
                 str_width = len(value)-2
                 value = int(value[2:],2)
             elif all(v in ["0", "1"] for v in value):
